@@ -204,6 +204,13 @@ def decode_inputs(ctx, kt, n_valid, with_tampers, with_struct, n_unstructured, n
     inputs, labels = [], []
     for r in recs:
         inputs.append(r["bytes"]); labels.append("valid")
+    brecs = gens.boundary_records(rng, o, kt)
+    for r in brecs:
+        inputs.append(r["bytes"]); labels.append("valid_framing_boundary")
+    if with_struct:
+        for r in brecs[-1:] + rng.sample(brecs[:-1], 2):
+            for lab, b in gens.wire_malformed_signed_canonical(rng, o, r):
+                inputs.append(b); labels.append(lab)
     if with_tampers:
         for i, r in enumerate(recs[:with_tampers]):
             for lab, b in gens.tampers(rng, o, r, recs[i + 1:] + recs[:i], n_flips):
@@ -216,7 +223,10 @@ def decode_inputs(ctx, kt, n_valid, with_tampers, with_struct, n_unstructured, n
                 inputs.append(b); labels.append(lab)
         k0 = recs[0]["key"]
         base = {b"id": rlp_str(b"v4"), k0.entry: rlp_str(k0.pub), b"ip": rlp_str(bytes([10, 0, 0, 1]))}
-        for lab, b in gens.honest_with_duplicates(rng, o, k0, 5, base) + gens.ill_typed_after_neighbour(rng, o, k0, 5, base):
+        for lab, b in gens.honest_with_duplicates(rng, o, k0, 5, base) + gens.ill_typed_after_neighbour(rng, o, k0, 5, base) \
+                + gens.wellknown_keys_any_value(rng, o, k0, 6, base, 2 if ctx.quick else 6):
+            inputs.append(b); labels.append(lab)
+        for lab, b in gens.many_pairs_records(rng, o, k0):
             inputs.append(b); labels.append(lab)
         for lab, b in gens.huge_records(rng, o, k0, (65536 + 250, 65536 + 300) if ctx.quick else (65536 + 250, 65536 + 300, 65536, 65536 + 301, 2 * 65536 + 100, 70000)):
             inputs.append(b); labels.append(lab)
@@ -275,7 +285,7 @@ def check_C01(ctx):
         return out
 
     for kt in ["k256", "libsecp", "ed", "comb", "toy"]:
-        recs, inputs, labels = decode_inputs(ctx, kt, ctx.scale(6, 40), ctx.scale(2, 8), 0, ctx.scale(60, 2000), ctx.scale(400, None))
+        recs, inputs, labels = decode_inputs(ctx, kt, ctx.scale(6, 40), ctx.scale(2, 8), ctx.scale(2, 10), ctx.scale(60, 2000), ctx.scale(400, None))
         cases, labs = [], []
         for b, lab in zip(inputs, labels):
             if lab != "valid" and ctx.rng.random() < 0.15:
@@ -391,6 +401,8 @@ def check_C11(ctx):
             signer = rng.choice([both_key, okey])
             pl2 = sorted(pl.items())
             inputs.append(record_bytes(o, signer, rng.choice(gens.SEQ_POOL), pl2)[0]); labels.append("both_keys_signed_by_" + signer.scheme)
+        for lab, b in gens.mislabelled_key_entries(rng, o):
+            inputs.append(b); labels.append(lab)
         cases = [["decode " + hx(b)] for b in inputs]
         per_kt = {}
         for kt in kts + ([other_kt] if True else []):
@@ -768,6 +780,15 @@ def cross_scheme_cases(ctx, kt):
     if not eds or not secps:
         return []
     cases = []
+    # an ed25519 signer whose public key is the first 32 bytes of a valid 33-byte secp256k1 point, with that point as a
+    # stray "secp256k1" entry: through the builder and through every kind of update (the record must never be handed
+    # out keyed by the point)
+    for sec, pub, extra in gens.ED_PREFIX_OF_SECP:
+        point = rlp_str(bytes.fromhex(pub) + bytes([extra]))
+        head = ["key a ed:" + sec]
+        cases.append(head + ["build a 0 1 raw/%s/%s" % (hx(b"secp256k1"), hx(point)), "rebuild a 0"])
+        cases.append(head + ["build a 0 1 udp4/30303", "op insert_raw a 0 %s %s" % (hx(b"secp256k1"), hx(point)), "op set_udp4 a 0 9",
+                             "op remove_insert a 0 none %s:%s" % (hx(b"secp256k1"), hx(bytes.fromhex(pub) + bytes([extra]))), "op set_seq a 0 77"])
     targets = [200, 254, 255, 256, 257, 258, 262, 270, 285, 296, 299, 300]
     for (a, cc) in ((eds[0], secps[0]), (secps[0], eds[0])):
         for target in (rng.sample(targets, 5) if ctx.quick else targets):
@@ -978,6 +999,8 @@ def check_C12(ctx):
 
     for kt in ["k256", "libsecp", "ed", "comb", "toy"]:
         recs = gens.valid_records(ctx.rng, ctx.oracle, kt, ctx.scale(8, 150))
+        br = gens.boundary_records(ctx.rng, ctx.oracle, kt)
+        recs += br if not ctx.quick else ctx.rng.sample(br, 6) + br[-1:]
         # records whose encoding ends in a zero byte (a decoder that pads with zeros would complete a truncated text)
         for r in list(recs[:ctx.scale(3, 30)]):
             pl = [kv for kv in r["pairs"] if kv[0] < b"zzz"] + [(b"zzz", rlp_str(gens.rbytes(ctx.rng, ctx.rng.randrange(1, 4)) + b"\x00" * ctx.rng.choice([1, 2])))]
@@ -997,6 +1020,12 @@ def check_C12(ctx):
                 if ctx.rng.random() < 0.4:
                     case.append("json " + hx(b'"' + s + b'"'))
                 ctx.dist[lab] += 1
+            # other WIRE forms of the same record under its own signature (unsorted, duplicated, non-canonical integers
+            # or lengths), as text: none of them is "the" text of the record
+            if "sig" in r and (r in br or ctx.rng.random() < 0.3):
+                for lab, wb in gens.wire_malformed_signed_canonical(ctx.rng, ctx.oracle, r):
+                    case.append("parse " + hx(b"enr:" + gens.b64(wb)))
+                    ctx.dist[lab] += 1
             cases.append(case); labs.append("text_edits")
         compare_cases(ctx, kt, cases, labs, lambda c, h: ["enc", "text", "json", "disp", "seq", "pairs", "sig"], "c12", mon)
         cross_decode(ctx, kt, [], [unhx(l.split()[1]) for c in cases for l in c if l.startswith("parse ")])
@@ -1069,6 +1098,11 @@ def check_C15(ctx):
             kx = hx(ctx.rng.choice([b"x", b"udp4-name", b"tcp-alt", b"zz"]))
             tail += ["op insert_raw a 0 %s 826162" % kx, "op set_seq a 0 9", "save 8", "op insert_raw a 0 %s c26162" % kx, "op set_seq a 0 9", "save 9",
                      "pair 8 9", "pair 9 8", "recode 10", "pair 9 10", "pair 10 9"]
+            # a slot holding an older record (with an entry the newer one lacks) refreshed from the newer one
+            ky = hx(ctx.rng.choice([b"y", b"tcp", b"zzz"]))
+            vy = "82 01 bb".replace(" ", "") if ky != hx(b"tcp") else "8201bb"
+            tail += ["op insert_raw a 0 %s %s" % (ky, vy), "save 11", "save 12", "op remove_key a 0 %s" % ky, "op set_udp4 a 0 4444", "save 12", "save 13",
+                     "pair 12 13", "pair 13 12", "pair 11 12", "use 12", "show"]
             n = 8
             for i in range(n):
                 for j in range(n):
@@ -1077,6 +1111,15 @@ def check_C15(ctx):
                         if ctx.rng.random() < 0.3:
                             lines.append("pair %d %d" % (j, i))
             cases.append(lines + tail)
+        # content twins by concatenation: {k1: v1, k3: v2} against {k1 ++ v1 ++ k3: v2} — the same bytes once the framing of
+        # keys is dropped, different pairs (a comparison over an unframed stream of entries takes them for equal)
+        a = gens.secrets(ctx.rng, ctx.oracle, kt, 1)[0]
+        for k1, v1, k3 in ((b"a", b"\x62", b"c"), (b"", b"\x61", b"b"), (b"a", rlp_str(b"xy"), b"b"), (b"a1", b"\xc1\x05", b"a2"), (b"A", b"\x80", b"B")):
+            v2 = rlp_str(gens.rbytes(ctx.rng, 2))
+            cases.append(["key a " + a.spec,
+                          "build a 0 5 raw/%s/%s raw/%s/%s" % (hx(k1), hx(v1), hx(k3), hx(v2)), "save 0",
+                          "build a 0 5 raw/%s/%s" % (hx(k1 + v1 + k3), hx(v2)), "save 1", "pair 0 1", "pair 1 0", "pair 0 0",
+                          "build a 0 5 raw/%s/%s raw/%s/%s" % (hx(k1), hx(v1), hx(k3), hx(v2)), "save 2", "pair 0 2", "pair 2 1"])
         res = compare_cases(ctx, kt, cases, None, lambda c, h: ["eq", "heq", "cc", "eqc", "seq", "pairs", "sig", "nid", "enc"], "c15", mon)
 
 
@@ -1099,6 +1142,39 @@ def check_C16(ctx):
                     b"", b"0x", h[:62], b"0x" + h + b"00", "é".encode() + h[2:], h.replace(b"a", b"A", 1)]
         for v in rng.sample(variants, ctx.scale(8, len(variants))):
             add("nodeid deser " + hx(v), "deser")
+    # 64 characters of which one or more are "almost" hex digits: every byte class next to the digit ranges, control
+    # characters that case folding (| 0x20, & 0xdf, ^ 0x20) maps onto digits or letters, and a few non-ASCII ones
+    near = [0x10, 0x11, 0x15, 0x19, 0x1a, 0x00, 0x01, 0x06, 0x2f, 0x3a, 0x40, 0x47, 0x60, 0x67, 0x21, 0x26, 0x41 ^ 0x80, 0x7f, 0x5f, 0x20]
+    for ch in near:
+        h = bytearray(gens.rbytes(rng, 32).hex().encode())
+        for pos in rng.sample(range(64), rng.choice([1, 1, 2, 64])):
+            h[pos] = ch
+        try:
+            bytes(h).decode("utf-8")
+        except UnicodeDecodeError:
+            continue
+        add("nodeid deser " + hx(bytes(h)), "deser_near_digit")
+        add("nodeid deser " + hx(b"0x" + bytes(h)), "deser_near_digit")
+    # equality: ids that differ in one byte, in two bytes by the same xor at word distance, in swapped words/halves
+    for _ in range(ctx.scale(12, 400)):
+        a = bytearray(gens.rbytes(rng, 32))
+        b = bytearray(a)
+        kind = rng.randrange(6)
+        if kind == 0:
+            b[rng.randrange(32)] ^= 1 << rng.randrange(8)
+        elif kind == 1:
+            i = rng.randrange(24); x = rng.randrange(1, 256); d = rng.choice([8, 16, 24, 4, 1]); j = (i + d) % 32
+            b[i] ^= x; b[j] ^= x
+        elif kind == 2:
+            w = rng.choice([4, 8, 16]); i, j = rng.sample(range(32 // w), 2)
+            b[i * w:(i + 1) * w], b[j * w:(j + 1) * w] = a[j * w:(j + 1) * w], a[i * w:(i + 1) * w]
+        elif kind == 3:
+            b = bytearray(reversed(a))
+        elif kind == 4:
+            x = rng.randrange(1, 256)
+            for i in range(16, 32):
+                b[i] ^= x
+        add("nodeid eq %s %s" % (bytes(a).hex(), bytes(b).hex()), "eq")
     for n in range(0, 71):
         s = bytes(rng.choice(hexd) for _ in range(n))
         add("nodeid deser " + hx(s), "deser_len")
@@ -1124,6 +1200,12 @@ def check_C16(ctx):
                 out.append((0, "Debug is not the full 0x-hex"))
             if unhx(f["disp"]) != b"0x" + x.encode()[:4] + b".." + x.encode()[-4:]:
                 out.append((0, "Display is not the first and last two bytes"))
+        if t[1] == "eq":
+            want = "1" if t[2] == t[3] else "0"
+            if f.get("eq") != want or f.get("eqraw") != want:
+                out.append((0, "two ids of %s bytes compare %s/%s" % ("equal" if want == "1" else "different", f.get("eq"), f.get("eqraw"))))
+            if want == "1" and f.get("hash") != "1":
+                out.append((0, "equal ids hash differently"))
         if t[1] == "deser":
             s = unhx(t[2])
             body = s[2:] if s[:2] == b"0x" else s
@@ -1155,6 +1237,31 @@ def check_C17(ctx):
             b = b"\xff" * 16 + gens.rbytes(rng, 16)
         cases.append(["ckimport secp " + b.hex()]); labs.append("secp_random")
         cases.append(["ckimport ed " + b.hex()]); labs.append("ed_random")
+    # limb boundaries: every 64-bit (and a sample of 32-bit) limb at, just below and just above the group order's limb,
+    # 0 and all-ones — a hand-written multi-limb comparison goes wrong on exactly one such combination
+    def limbs(width):
+        k = 256 // width
+        nl = [(N >> (width * (k - 1 - i))) & ((1 << width) - 1) for i in range(k)]
+        return k, nl
+    combos = []
+    k, nl = limbs(64)
+    import itertools
+    for choice in itertools.product(range(5), repeat=k):
+        v = 0
+        for i, c in enumerate(choice):
+            limb = [nl[i] - 1, nl[i], nl[i] + 1, 0, (1 << 64) - 1][c] % (1 << 64)
+            v = (v << 64) | limb
+        combos.append(v)
+    k, nl = limbs(32)
+    for _ in range(400):
+        v = 0
+        for i in range(k):
+            limb = rng.choice([nl[i] - 1, nl[i], nl[i], nl[i] + 1, 0, (1 << 32) - 1, rng.randrange(1 << 32)]) % (1 << 32)
+            v = (v << 32) | limb
+        combos.append(v)
+    combos += [N - (1 << e) for e in (8, 16, 32, 63, 64, 65, 96, 127, 128, 129, 160, 191, 192, 193, 224)]
+    for v in (combos if not ctx.quick else rng.sample(combos, 160) + combos[-15:]):
+        cases.append(["ckimport secp " + v.to_bytes(32, "big").hex()]); labs.append("secp_limb_boundary")
     for n in list(range(0, 40)) + [63, 64, 65]:
         if n != 32:
             cases.append(["ckimport ed " + hx(gens.rbytes(rng, n))]); labs.append("ed_wrong_length")
@@ -1184,6 +1291,8 @@ def check_C17(ctx):
         if first(h) == "ok":
             if unhx(f["buf"]) != b"\x00" * len(x):
                 out.append((0, "caller's buffer not wiped"))
+            if f.get("offs") == "0":
+                out.append((0, "the import depends on where the caller's buffer starts (offsets 0..8 inside a larger buffer): wipe, result or neighbouring bytes differ"))
             if len(x) == 32 and f["export"] != t[2]:
                 out.append((0, "export differs from the imported bytes"))
             if not f.get("rec", "").endswith(":1"):
